@@ -115,6 +115,48 @@ def run(chk):
             for k in range(1, 5):
                 chk.eq(f"C22.decoupling.couplings[{scheme}].{tag}.x^{k}", comp.coeff(k), Q(1) if k == 1 else Q(0),
                        fn="eko.couplings:compute_matching_coeffs_down", goal="down o up == id through x^4, all nf", replay=rp)
+    # ... and at the place where the tables are USED: Couplings.a with the running switched off (compute replaced by "return the coupling it was given") applies
+    # only the decoupling factors.  Crossing a threshold upwards from (mu0, nf) and, with the result as the new reference, downwards again must give back the
+    # coupling it started from through the order of the object: a_back == a + O(a^(order+1)), for every heavy quark, both schemes, any matching ratio.
+    from eko import matchings
+    from eko.couplings import Couplings
+    fna = "eko.couplings:Couplings.a"
+    chk.under_contract(fna)
+    c_, b_, t_, mu0, muf = (T.var(v) for v in ("mc2", "mb2", "mt2", "mu0", "muf"))
+    MT2 = Q(1777, 1000) ** 2
+    req = [mu0 > MT2, muf > MT2, c_ > MT2, c_ <= b_, b_ <= t_]
+    ratios = [T.var("kc"), T.var("kb"), T.var("kt")]
+
+    def ghost(order, scheme, ref_scale, ref_nf, a_ref):
+        obj = object.__new__(Couplings)
+        obj.order, obj.method, obj.alphaem_running, obj.decoupled_running = (order, 0), "expanded", False, False
+        obj.a_ref = np.array([a_ref, Q(0)], dtype=object)
+        obj.thresholds_ratios = list(ratios)
+        obj.atlas = matchings.Atlas([c_, b_, t_], (ref_scale, ref_nf))
+        obj.hqm_scheme = scheme
+        obj.cache = {}
+        obj.compute = lambda a_, nf_, nl_, frm_, to_: a_.copy()      # no running: only the decoupling acts
+        return obj
+
+    for scheme in ("POLE", "MSBAR"):
+        for order in (2, 3, 4):
+            for nf_lo in (3, 4, 5):
+                tagc = f"C22.decoupling.in_Couplings_a[{scheme},order={order},nf={nf_lo}<->{nf_lo + 1}]"
+                xa = Series.indet("x", order + 2)
+                hyp = req + [r > 0 for r in ratios]
+                ups = chk.run_paths(tagc + ".up", lambda: ghost(order, scheme, mu0, nf_lo, xa).a(muf, nf_lo + 1), hyp, fn=fna, replay=rp)
+                for ptu, _pc, a_up in ups:
+                    downs = chk.run_paths(ptu + ".down", lambda: ghost(order, scheme, muf, nf_lo + 1, a_up[0]).a(mu0, nf_lo), hyp, fn=fna, replay=rp)
+                    for ptd, _pc2, a_back in downs:
+                        ser = a_back[0]
+                        ok_type = isinstance(ser, Series)
+                        chk.ground(f"{ptd}.is_a_series_in_the_coupling", ok_type, fn=fna, goal="the result is the decoupling series applied to the reference coupling", detail=repr(ser)[:200], replay=rp)
+                        if not ok_type:
+                            continue
+                        for k in range(1, order + 1):
+                            chk.eq(f"{ptd}.a^{k}", ser.coeff(k), Q(1) if k == 1 else Q(0), fn=fna, replay=rp,
+                                   goal="down(up(a)) == a + O(a^(order+1)): the downward step uses the inverse of the upward table of the SAME threshold (same nf, same matching ratio)")
+                chk.configs += 1
     # mass decoupling: m^(nf+1) = m^(nf) F_up(a), m^(nf) = m^(nf+1) F_down(a) with the *same* coupling a (evolve() uses the
     # (nf+1)-flavour coupling in both directions): F_up F_down = 1 + O(a^4)
     up = msbar_masses.compute_matching_coeffs_up(nf)
